@@ -13,7 +13,7 @@ import (
 
 func init() {
 	register("C16",
-		"RFULL: in mailbox, no protocol field is read from an io.Reader-typed value with a bare Read call; every transport read of the handshake and of the record layer goes through io.ReadFull/io.ReadAtLeast and its error is tested before the buffer is used (short reads of any granularity therefore cannot change the outcome). FLUSH: in Machine.Flush the pending slice is replaced by x[n:] with n the count of that very Write before the error is looked at, for header and body; an error while writing the header returns before the body is touched; in WriteMessage both Encrypt calls are dominated by the 'nothing pending' test (so the nonce cannot advance and the pending record cannot be overwritten) and by the 65535 bound; only WriteMessage and Flush write the pending slices; NoiseConn.Write on top of it adds each Flush count before testing that Flush's error and cuts contiguous chunks (RDC-3 as in C15). Not decided: the MAC-byte arithmetic of the count returned by Flush (piecewise-linear in the write count; sampled by TestFlush only).",
+		"RFULL: in mailbox, no protocol field is read from an io.Reader-typed value with a bare Read call; every transport read of the handshake and of the record layer goes through io.ReadFull/io.ReadAtLeast and its error is tested before the buffer is used (short reads of any granularity therefore cannot change the outcome); the reader handed to readMsgPattern/readTokens/DoHandshake/ReadMessage/ReadHeader/ReadBody is always the caller's own reader parameter or transport field, never a wrapper created on the way (no read-ahead across act or record boundaries). FLUSH: in Machine.Flush the pending slice is replaced by x[n:] with n the count of that very Write before the error is looked at, for header and body; an error while writing the header returns before the body is touched; in WriteMessage both Encrypt calls are dominated by the 'nothing pending' test (so the nonce cannot advance and the pending record cannot be overwritten) and by the 65535 bound; only WriteMessage and Flush write the pending slices; NoiseConn.Write on top of it adds each Flush count before testing that Flush's error and cuts contiguous chunks (RDC-3 as in C15). Not decided: the MAC-byte arithmetic of the count returned by Flush (piecewise-linear in the write count; sampled by TestFlush only).",
 		[]string{"io.ReadFull returns an error unless the buffer was filled completely; io.Writer.Write returns 0 <= n <= len(p)"},
 		runC16)
 }
@@ -188,6 +188,97 @@ func runC16(c *Checker) {
 		})
 	}
 	c.floor("RFULL", 8)
+	// RFULL (source): the exact-length reads consume the transport itself. A reader that is created
+	// on the way (bufio.NewReader, io.LimitReader, ...) may read ahead and keep bytes of the NEXT act
+	// or record in a buffer that is thrown away when the function returns.
+	nSrc := 0
+	for _, fn := range w.Funcs {
+		if w.pkgShort(fn) != targetMbox {
+			continue
+		}
+		allInstrs(fn, func(in ssa.Instruction) {
+			call, ok := in.(*ssa.Call)
+			if !ok {
+				return
+			}
+			sc := call.Common().StaticCallee()
+			if sc == nil || sc.Pkg == nil || sc.Pkg.Pkg.Path() != mboxPath {
+				return
+			}
+			switch sc.Name() {
+			case "readMsgPattern", "readTokens", "ReadMessage", "ReadHeader", "ReadBody", "DoHandshake":
+			default:
+				return
+			}
+			// the reader argument: the first argument of an io.Reader / io.ReadWriter type
+			var rd ssa.Value
+			for i, a := range call.Common().Args {
+				if i == 0 && sc.Signature.Recv() != nil {
+					continue
+				}
+				if it, ok := a.Type().Underlying().(*types.Interface); ok && it.NumMethods() > 0 {
+					for k := 0; k < it.NumMethods(); k++ {
+						if it.Method(k).Name() == "Read" {
+							rd = a
+						}
+					}
+				}
+				if rd != nil {
+					break
+				}
+			}
+			if rd == nil {
+				return
+			}
+			nSrc++
+			org := rd
+			for {
+				switch x := org.(type) {
+				case *ssa.ChangeInterface:
+					org = x.X
+					continue
+				case *ssa.MakeInterface:
+					org = x.X
+					continue
+				}
+				break
+			}
+			org = unwrapLoadAlloc(org)
+			okk, what := false, w.canonFB(org)
+			switch x := org.(type) {
+			case *ssa.Parameter:
+				okk = true
+			case *ssa.UnOp:
+				if _, isFA := x.X.(*ssa.FieldAddr); isFA && x.Op == token.MUL {
+					okk = true // the connection's transport field
+				}
+			}
+			if !okk {
+				// a freshly dialled/accepted connection is a transport too: its type can also Write and
+				// Close (a read-ahead wrapper such as *bufio.Reader or io.LimitReader cannot)
+				ms := w.Prog.MethodSets.MethodSet(org.Type())
+				has := func(n string) bool { return ms.Lookup(nil, n) != nil }
+				if it, isIface := org.Type().Underlying().(*types.Interface); isIface {
+					has = func(n string) bool {
+						for k := 0; k < it.NumMethods(); k++ {
+							if it.Method(k).Name() == n {
+								return true
+							}
+						}
+						return false
+					}
+				}
+				if has("Write") && has("Close") && has("Read") {
+					okk = true
+				}
+			}
+			c.decide(okk, "RFULL", fmt.Sprintf("%s|%s reads the transport itself", fnName(fn), sc.Name()), instrPos(call), "the reader is the caller's own reader parameter or transport field",
+				"the exact-length reads of "+sc.Name()+" are given "+what+" instead of the transport: a wrapper that reads ahead swallows the beginning of the next act or record")
+		})
+	}
+	if nSrc < 6 {
+		c.fail("RFULL", "reader sources", token.NoPos, fmt.Sprintf("only %d reader hand-offs found", nSrc))
+	}
 
 	// ---- FLUSH ----
 	flush := w.Func("(*mailbox.Machine).Flush")
